@@ -18,6 +18,22 @@ import (
 //go:embed anchors.json
 var anchorsJSON []byte
 
+// anchor_params.json: name -> parameter names (receiver first) on the reference
+// tree, so that rules can keep naming parameters after a parameter is renamed.
+//
+//go:embed anchor_params.json
+var anchorParamsJSON []byte
+
+var refParams map[string][]string
+
+func loadAnchorParams() map[string][]string {
+	m := map[string][]string{}
+	if len(anchorParamsJSON) > 0 {
+		_ = json.Unmarshal(anchorParamsJSON, &m)
+	}
+	return m
+}
+
 func loadAnchors() map[string]string {
 	m := map[string]string{}
 	if len(anchorsJSON) == 0 {
@@ -31,6 +47,7 @@ func init() {
 	extraCmds["anchors"] = func(args []string) int {
 		fs := flag.NewFlagSet("anchors", flag.ExitOnError)
 		repo := fs.String("repo", "/repo", "")
+		params := fs.Bool("params", false, "print the parameter-name table instead")
 		fs.Parse(args)
 		saved := anchorsJSON
 		anchorsJSON = nil
@@ -39,6 +56,21 @@ func init() {
 		if err != nil {
 			fmt.Fprintln(os.Stderr, err)
 			return 2
+		}
+		if *params {
+			pm := map[string][]string{}
+			for name, fn := range p.funcs {
+				if p.InP(fn) && fn.Parent() == nil {
+					var ns []string
+					for _, prm := range fn.Params {
+						ns = append(ns, prm.Name())
+					}
+					pm[name] = ns
+				}
+			}
+			b, _ := json.MarshalIndent(pm, "", " ")
+			fmt.Println(string(b))
+			return 0
 		}
 		m := map[string]string{}
 		for name, fn := range p.funcs {
